@@ -147,6 +147,34 @@ func genC11(tier string, rng *Rng) {
 	}
 
 	// ---- panel absent / refusing, accepting but silent
+	// ---- the WRITER is blocked in a socket write (the panel has stopped reading, the application keeps
+	// submitting) when the connection ends: by the panel's FIN, an over-limit header, a stall inside a
+	// frame, or the cancellation itself.  Whoever ends the connection must close the socket, that is what
+	// releases the writer (seed C11-12: the socket closed by the writer on quit - which a blocked writer
+	// never sees; the wait group then never drains and the first socket stays open)
+	for _, fault := range []string{"fin", "over", "stall", "cancel"} {
+		cs := ConnScript{Items: []Item{ackItem(), good(3)}, Segs: []SegCut{{0, 6}, {60, gl}}, End: "none"}
+		conns := []ConnScript{cs, goodConn(1, 2)}
+		cancel := 0
+		switch fault {
+		case "fin":
+			conns[0].End, conns[0].EndT = "close", 900
+			cancel = 900 + 1000 + 700
+		case "over":
+			conns[0].Items = append(conns[0].Items, Item{Kind: "raw", Data: Lit([]byte{0x20, 0xa1, 0x07, 0x00})}, good(77))
+			conns[0].Segs = append(conns[0].Segs, SegCut{900, 4 + gl})
+			cancel = 900 + 1000 + 700
+		case "stall":
+			conns[0].Items = append(conns[0].Items, Item{Kind: "raw", Data: Lit([]byte{100, 0, 0, 0, 1, 2, 3, 4, 5, 6, 7, 8, 9, 10})})
+			conns[0].Segs = append(conns[0].Segs, SegCut{900, 14})
+			cancel = 900 + 2000 + 1000 + 700
+		case "cancel":
+			conns = conns[:1]
+			cancel = 1200
+		}
+		add("writer-blocked-"+fault, &Scenario{Cancel: cancel, Conns: conns, ReadPauseFrom: 150, ReadPauseTo: 0, FloodKB: 16384, SubStart: 200,
+			Subs: [][]Submission{{{Msgs: []*rwp.InboundMessage{{FlowMessage: rwp.InboundMessage_PING}}}}}})
+	}
 	add("absent", &Scenario{Cancel: 800})
 	add("absent", &Scenario{Cancel: 3500})
 	add("absent-cfg", &Scenario{Cancel: 1500, UseCfg: true, NoConn: 1})
